@@ -341,7 +341,7 @@ func main() {
 		}
 		for _, s := range fr.Samples {
 			if len(samples) < 6 {
-				samples = append(samples, s)
+				samples = append(samples, shrink(s, 1500))
 			}
 		}
 		for k, v := range fr.ViolCount {
@@ -578,4 +578,28 @@ func loadFindings(path string) []Finding {
 		die(2, "HARNESS-ERROR: known_findings.json: %v", err)
 	}
 	return doc.Findings
+}
+
+// shrink keeps evidence files small: every string longer than max inside v is cut to its head and tail.
+func shrink(v interface{}, max int) interface{} {
+	switch t := v.(type) {
+	case string:
+		if len(t) > max {
+			return t[:max/2] + fmt.Sprintf(" ...[%d bytes cut]... ", len(t)-max) + t[len(t)-max/2:]
+		}
+		return t
+	case []interface{}:
+		out := make([]interface{}, len(t))
+		for i := range t {
+			out[i] = shrink(t[i], max)
+		}
+		return out
+	case map[string]interface{}:
+		out := make(map[string]interface{}, len(t))
+		for k, e := range t {
+			out[k] = shrink(e, max)
+		}
+		return out
+	}
+	return v
 }
